@@ -243,9 +243,57 @@ CLAIMED['C20'] = dict(
          'of the convenience API distinct within a thread, context-list copies unaffected by later configuration. This '
          'finds state shared through the entity, classes or modules; it does NOT cover byte-code level thread races.',
     note=TRUSTED + 'OUTSIDE the claim: real OS threads / GIL scheduling / real TCP (a Python symbolic executor cannot make the '
-         'thread schedule a solver variable) - that part of the property is not addressed by this technique. Schedules: 3 '
+         'thread schedule a solver variable) - except for the forced pre-emption harness of _new_msg_id - that part of the property is not addressed by this technique. Schedules: 3 '
          '(quick) / 8 (thorough) words; selectors are finite and enumerated by the solver.',
     design='5/C20')
+
+# additions of the third session (appended to the level text of each property; section 10.8 of DESIGN.md)
+ADDED = {
+    'C01': ' Also: the round trip after an earlier encode/decode of a different value of the same kind (decoder / encoder '
+           'state must not carry over; class- and module-level containers of the codec are reset between executions), '
+           'presentation-context ids in any order.',
+    'C02': ' Also: UTF-8 user-identity fields over the whole Unicode range (lengths count bytes), and objects whose public '
+           'attributes are re-assigned after construction / after a first encode (the bytes must describe the current '
+           'field values).',
+    'C03': ' Corpus also holds a peer that pipelines protocol violations (unexpected A-ASSOCIATE-AC, unknown PDU type, '
+           'A-ASSOCIATE-RQ) and the close.',
+    'C04': ' Also: Evt10 with a symbolic message control header and payload (fragment of an incomplete message vs. invalid '
+           'PDU = Evt19 effect) in every state.',
+    'C05': ' Time is a symbolic advance (0..30 s) before every event, decided against the instant of the reference '
+           'timer\'s last start / restart; pairs of peer events delivered in ONE transport segment.',
+    'C06': ' Also: the same message object re-assigned and sent again before the provider thread drained the first send '
+           '(symbolic schedule).',
+    'C07': ' Also: Command Data Set Type = any 16-bit value but 0101H; 2-3 messages in a row on one association through the '
+           'real DT-2 / AR-6 (file-backed and in-memory mixed, files closed by the application or not).',
+    'C08': ' Also: lagging provider-thread schedule for re-sent objects; contexts accepted with little- and big-endian '
+           'transfer syntaxes (the command set stays implicit VR little endian).',
+    'C10': ' Also, over the REAL provider (octets in): a peer sending P-DATA-TF PDUs as long as the value the library '
+           'announced must be received intact, whatever the peer announced for the other direction (both roles).',
+    'C11': ' Also: result items of the reply in any of the 24 orders (results belong to proposals by context id); a second '
+           'request on the same requester object after a refusal.',
+    'C12': ' Hostile bytes are also fed in the release and release-collision states 8-12.',
+    'C13': ' Also: disconnection by a connection reset that is already pending when the last bytes are read; ARTIM expiry of '
+           'one association while another association of the same entity is established, served and released (real '
+           'providers, symbolic clock).',
+    'C14': ' Also, through the public API over real providers and scripted peers (octets): abort / release request in the '
+           'same transport segment as a response; nested requested associations where the inner one is refused or aborted '
+           '(the outer one must be aborted, the inner error unchanged).',
+    'C15': ' Also: data sets that are exactly one full fragment; the receiving side as real acceptor + real provider next to '
+           'a second association with the other transfer syntax on the same context id; directory storage over every '
+           'subset of six candidate file names.',
+    'C16': ' Also: the provider behind the real acceptor loop and provider (octets in / out) with the FIND class accepted on '
+           'three contexts with different transfer syntaxes, queries sent with command and identifier packed in one PDU.',
+    'C17': ' Also: faults of the reverse association after an N-ACTION request was accepted (the request is still answered); '
+           'the C-FIND provider serving two associations interleaved at handler granularity.',
+    'C18': ' The table model is independent of how the module organises its tables; also: registrations made after import '
+           '(a general registration never overrides a service-specific class).',
+    'C19': ' Provider-thread schedule (eager / lagging drain) symbolic for the C-MOVE provider and the C-GET user.',
+    'C20': ' Also: two associations as real acceptors over REAL stepped providers with the same context id and different '
+           'transfer syntaxes, one of them ending badly, symbolic clock afterwards; and message ids under FORCED pre-emption '
+           'of real threads at every byte-code boundary of _new_msg_id (switch point chosen by the solver).',
+}
+for _pid, _txt in ADDED.items():
+    CLAIMED[_pid]['text'] = CLAIMED[_pid]['text'] + _txt
 
 NOT_YET = 'check not built yet in this revision (see DESIGN.md section 5 for the plan)'
 
